@@ -559,6 +559,10 @@ public:
         compute_pointer();
         copy_data(mat, uplo, shift);
 
+        // The status is overwritten by each elimination step below, but the loop
+        // is empty for 1x1 matrices, and the status of a previous call must not survive
+        m_info = CompInfo::Successful;
+
         const RealScalar alpha = (1.0 + std::sqrt(17.0)) / 8.0;
         Index k = 0;
         for (k = 0; k < m_n - 1; k++)
